@@ -76,10 +76,10 @@ func vDeltaToken(d *model.DeltaModel) string {
 
 // vCallLog records the security-relevant primitive calls an entry point made.
 type vCallLog struct {
-	validModelMH   []vMHCall
-	validateDelta  []*model.DeltaModel
-	timeValidator  [][2]int64
-	getCommitment  []string
+	validModelMH  []vMHCall
+	validateDelta []*model.DeltaModel
+	timeValidator [][2]int64
+	getCommitment []string
 }
 
 type vMHCall struct {
